@@ -27,20 +27,106 @@ def _tag(st):
     raise G.P.Untranslatable(f"_on_connection_data_received: unrecognised statement `{ast.unparse(st)[:80]}`")
 
 
+def _loop_tags(cls, name, trig):
+    """statement order of a `while not self._stop_…:` thread loop of ProtocolDispatcher: wait / clear / stoptest / target / drain"""
+    fn = next((i for i in cls.body if isinstance(i, ast.FunctionDef) and i.name == name), None)
+    if fn is None or not fn.body or not isinstance(fn.body[0], ast.While):
+        raise G.P.Untranslatable(f"ProtocolDispatcher.{name}: no leading while loop")
+    tags = []
+    for st in fn.body[0].body:
+        src = ast.unparse(st)
+        if isinstance(st, ast.Expr) and isinstance(st.value, ast.Call) and G.P.dotted(st.value.func) == f"self.{trig}.wait" and not st.value.args:
+            tags.append("wait")
+        elif isinstance(st, ast.Expr) and isinstance(st.value, ast.Call) and G.P.dotted(st.value.func) == f"self.{trig}.clear":
+            tags.append("clear")
+        elif isinstance(st, ast.If) and src.startswith("if self._stop_") and isinstance(st.body[0], ast.Continue):
+            tags.append("stoptest")
+        elif isinstance(st, ast.Try) and "self._receiver_target()" in src:
+            tags.append("target")
+        elif isinstance(st, ast.While) and ast.unparse(st.test) == "self._dispatch_queue.qsize() > 0" and "self._dispatch_queue.get()" in src:
+            tags.append("drain")
+        else:
+            raise G.P.Untranslatable(f"ProtocolDispatcher.{name}: unrecognised loop statement `{src[:80]}`")
+    return tags
+
+
+def _uses_buffer(node):
+    return any(isinstance(n, ast.Attribute) and n.attr == "_buffer" and isinstance(n.value, ast.Name) and n.value.id == "self" for n in ast.walk(node))
+
+
 def unit_RxOrder():
+    """Gen.RxOrder: statement orders of the thread hand-overs on the receive path and the locking discipline of `ByteQueue`.
+      * onData        : `Protocol._on_connection_data_received`            (append / trigger)
+      * queueBlock    : `ProtocolDispatcher.queue_block`                   (append = `_dispatch_queue.put`, trigger = `_dispatcher_thread_trigger.set`)
+      * receiverLoop / dispatcherLoop : the loop bodies of the two thread functions (wait / clear / stoptest / target|drain)
+      * byteQueueLocked : for `append`, `pop`, `pop_byte`, `clear`: does every statement that touches `self._buffer` sit inside
+                          `with self._buffer_lock:` ?
+      * popTakesExactlySize : the body of `ByteQueue.pop` is exactly `with lock: data = self._buffer[:size]; del self._buffer[:size]; return data`
+    """
     tree = G.parse("common/protocol.py")
     cls = G.find_class(tree, "Protocol")
     fn = next((i for i in cls.body if isinstance(i, ast.FunctionDef) and i.name == "_on_connection_data_received"), None)
     if fn is None:
         raise G.P.Untranslatable("Protocol._on_connection_data_received not found")
     tags = [t for t in (_tag(st) for st in fn.body) if t is not None]
-    out = [G.HEADER.format(src="secsgem/common/protocol.py (Protocol._on_connection_data_received)"),
+
+    dcls = G.find_class(G.parse("common/protocol_dispatcher.py"), "ProtocolDispatcher")
+    qb = next((i for i in dcls.body if isinstance(i, ast.FunctionDef) and i.name == "queue_block"), None)
+    if qb is None:
+        raise G.P.Untranslatable("ProtocolDispatcher.queue_block not found")
+    qtags = []
+    for st in qb.body:
+        if isinstance(st, ast.Expr) and isinstance(st.value, ast.Constant):
+            continue
+        fnname = G.P.dotted(st.value.func) if isinstance(st, ast.Expr) and isinstance(st.value, ast.Call) else None
+        if fnname == "self._dispatch_queue.put":
+            qtags.append("append")
+        elif fnname == "self._dispatcher_thread_trigger.set":
+            qtags.append("trigger")
+        else:
+            raise G.P.Untranslatable(f"queue_block: unrecognised statement `{ast.unparse(st)[:80]}`")
+    rloop = _loop_tags(dcls, "_receiver_thread_function", "_receiver_thread_trigger")
+    dloop = _loop_tags(dcls, "_dispatcher_thread_function", "_dispatcher_thread_trigger")
+
+    bcls = G.find_class(G.parse("common/byte_queue.py"), "ByteQueue")
+    locked = []
+    pop_exact = False
+    for name in ("append", "pop", "pop_byte", "clear"):
+        m = next((i for i in bcls.body if isinstance(i, ast.FunctionDef) and i.name == name), None)
+        if m is None:
+            raise G.P.Untranslatable(f"ByteQueue.{name} not found")
+        body = [st for st in m.body if not (isinstance(st, ast.Expr) and isinstance(st.value, ast.Constant))]
+        ok = True
+        for st in body:
+            is_lock = isinstance(st, ast.With) and len(st.items) == 1 and ast.unparse(st.items[0].context_expr) == "self._buffer_lock"
+            if _uses_buffer(st) and not is_lock:
+                ok = False
+        locked.append((name, ok))
+        if name == "pop":
+            pop_exact = (len(body) == 1 and isinstance(body[0], ast.With)
+                         and ast.unparse(body[0].items[0].context_expr) == "self._buffer_lock"
+                         and [ast.unparse(x) for x in body[0].body] == ["data = self._buffer[:size]", "del self._buffer[:size]", "return data"])
+
+    def lst(xs):
+        return "[" + ", ".join('"' + x + '"' for x in xs) + "]"
+    out = [G.HEADER.format(src="secsgem/common/protocol.py (_on_connection_data_received), protocol_dispatcher.py (queue_block, thread loops), byte_queue.py"),
            "namespace SecsModel.Gen.RxOrder\n",
            "/-- statements of `Protocol._on_connection_data_received`, in source order -/",
-           "def onData : List String := [" + ", ".join('"' + t + '"' for t in tags) + "]\n",
+           f"def onData : List String := {lst(tags)}\n",
+           "/-- statements of `ProtocolDispatcher.queue_block`, in source order -/",
+           f"def queueBlock : List String := {lst(qtags)}\n",
+           "/-- loop body of `ProtocolDispatcher._receiver_thread_function`, in source order -/",
+           f"def receiverLoop : List String := {lst(rloop)}\n",
+           "/-- loop body of `ProtocolDispatcher._dispatcher_thread_function`, in source order -/",
+           f"def dispatcherLoop : List String := {lst(dloop)}\n",
+           "/-- `ByteQueue` mutators: every statement touching `self._buffer` is inside `with self._buffer_lock:` -/",
+           "def byteQueueLocked : List (String × Bool) := [" + ", ".join(f'("{n}", {"true" if b else "false"})' for n, b in locked) + "]\n",
+           "/-- `ByteQueue.pop` is exactly: under the lock, `data = self._buffer[:size]; del self._buffer[:size]; return data` -/",
+           f"def popTakesExactlySize : Bool := {'true' if pop_exact else 'false'}\n",
            "end SecsModel.Gen.RxOrder\n"]
     G.write("RxOrder", "\n".join(out))
-    G.FACTS["RxOrder"] = {"onData": tags}
+    G.FACTS["RxOrder"] = {"onData": tags, "queueBlock": qtags, "receiverLoop": rloop, "dispatcherLoop": dloop,
+                          "byteQueueLocked": locked, "popTakesExactlySize": pop_exact}
 
 
 def unit_HsmsGuards():
@@ -50,6 +136,9 @@ def unit_HsmsGuards():
       * sockOpts : every `setsockopt` call in common/tcp_connection.py, tcp_client_connection.py, tcp_server_connection.py as
         (file, receiver expression, level, option), in source order.  An option that changes what `close()` does to bytes `send()` has
         accepted (SO_LINGER) would make "send_data returned True" mean less than the property says.
+      * receiverThreadLast / ownDisconnectedListeners / closedHooks : the next listen/connect cycle is started by the `_connection_closed()`
+        hook, which is the LAST statement of `TcpConnection.__receiver_thread`, and by no `on_disconnected` listener of the TCP classes:
+        a new connection can only be set up after the old one's teardown (protocol handlers, flag reset) is complete.
     """
     tree = G.parse("hsms/protocol.py")
     cls = G.find_class(tree, "HsmsProtocol")
@@ -72,6 +161,24 @@ def unit_HsmsGuards():
                 found.append((n.lineno, rel.split("/")[-1], ast.unparse(n.func.value), ast.unparse(n.args[0]), ast.unparse(n.args[1])))
         opts += [f[1:] for f in sorted(found)]
 
+    # the transport's hand-over between two connections: where the next listen/connect cycle is started
+    ttree = G.parse("common/tcp_connection.py")
+    tcls = G.find_class(ttree, "TcpConnection")
+    rt = next((i for i in tcls.body if isinstance(i, ast.FunctionDef) and i.name == "__receiver_thread"), None)
+    if rt is None:
+        raise G.P.Untranslatable("TcpConnection.__receiver_thread not found")
+    last = ast.unparse(rt.body[-1])
+    regs = []
+    for rel in ("common/tcp_connection.py", "common/tcp_client_connection.py", "common/tcp_server_connection.py"):
+        for n in ast.walk(G.parse(rel)):
+            if isinstance(n, ast.Call) and G.P.dotted(n.func) == "self.on_disconnected.register":
+                regs.append(rel.split("/")[-1] + ": " + ast.unparse(n))
+    hooks = []
+    for rel, cname in (("common/tcp_client_connection.py", "TcpClientConnection"), ("common/tcp_server_connection.py", "TcpServerConnection")):
+        c = G.find_class(G.parse(rel), cname)
+        if any(isinstance(i, ast.FunctionDef) and i.name == "_connection_closed" for i in c.body):
+            hooks.append(cname)
+
     def q(x):
         return '"' + x.replace("\\", "\\\\").replace('"', '\\"') + '"'
     out = [G.HEADER.format(src="secsgem/hsms/protocol.py (_on_state_connect), secsgem/common/tcp_*connection.py (setsockopt calls)"),
@@ -81,9 +188,16 @@ def unit_HsmsGuards():
            "/-- every `setsockopt` call of the TCP connection classes: (file, receiver, level, option) -/",
            "def sockOpts : List (String × String × String × String) := ["
            + ", ".join("(" + ", ".join(q(x) for x in o) + ")" for o in opts) + "]\n",
+           "/-- last statement of `TcpConnection.__receiver_thread` (after `on_disconnected` and the reset of the flags) -/",
+           "def receiverThreadLast : String := " + q(last) + "\n",
+           "/-- `self.on_disconnected.register(...)` calls inside the TCP connection classes themselves -/",
+           "def ownDisconnectedListeners : List String := [" + ", ".join(q(x) for x in regs) + "]\n",
+           "/-- TCP connection classes that implement the `_connection_closed` hook -/",
+           "def closedHooks : List String := [" + ", ".join(q(x) for x in hooks) + "]\n",
            "end SecsModel.Gen.HsmsGuards\n"]
     G.write("HsmsGuards", "\n".join(out))
-    G.FACTS["HsmsGuards"] = {"selectGuard": guards[0], "sockOpts": [list(o) for o in opts]}
+    G.FACTS["HsmsGuards"] = {"selectGuard": guards[0], "sockOpts": [list(o) for o in opts], "receiverThreadLast": last,
+                             "ownDisconnectedListeners": regs, "closedHooks": hooks}
 
 
 UNITS = {"RxOrder": unit_RxOrder, "HsmsGuards": unit_HsmsGuards}
